@@ -69,6 +69,16 @@ pub trait Check: Sync {
     }
 }
 
+/// the case of run `i`: the check's own generator, then the knobs every check shares
+pub fn gen_case(check: &dyn Check, base_seed: u64, i: u64, family: &str, family_index: u64, tier: Tier) -> Case {
+    let mut case = check.gen_indexed(base_seed, i, family, family_index, tier);
+    // a logger may be installed in the process (RUST_LOG=debug, an embedding application's logger): three runs
+    // in eight log at info, debug or trace level into a sink that formats every message
+    let mut r = crate::sim::Rng::new(case.seed ^ fnv64("log-level"));
+    case.simcfg.log_level = *r.pick(&[0u8, 0, 0, 0, 0, 3, 4, 5]);
+    case
+}
+
 #[derive(Debug)]
 pub enum ChildOutcome {
     Done(ChildResult),
@@ -330,7 +340,7 @@ fn worker(check: &dyn Check, tier: Tier, base_seed: u64, k: usize, budget: &Budg
     while i < budget.runs && Instant::now() < deadline {
         let seed = base_seed.wrapping_add(i);
         let (fam, fam_idx) = family_of(&fams, i);
-        let case = check.gen_indexed(base_seed, i, fam, fam_idx, tier);
+        let case = gen_case(check, base_seed, i, fam, fam_idx, tier);
         let r = eval_case(check, &case, budget.child_timeout);
         sum.runs += 1;
         *sum.per_family.entry(fam.to_string()).or_insert(0) += 1;
